@@ -18,7 +18,7 @@
 (* res = [raised, error, x, w] (+ value for PopPar / SasviewGW).           *)
 (*                                                                         *)
 (* For every event the specification computes the result itself            *)
-(* (W!GetWeights ...) and requires                                         *)
+(* (W!Values, W!Densities ...) and requires                                *)
 (*   - every clause of the property on the LOGGED arrays,                  *)
 (*   - the logged values to be the specification's grid: bit for bit when  *)
 (*     the grid is exactly representable (dyadic), else to 1e-14,          *)
@@ -205,8 +205,10 @@ ValidateSingle(spec, res) ==
 Validate(q, res) ==
     LET spec == W!Values(q)
     IN  IF spec.kind = "undefined"
-        THEN \* no documented density: only an explicit refusal is acceptable
+        THEN \* no documented density: only an explicit refusal is acceptable (or the empty
+             \* result, when limits and support leave no point to evaluate a density at)
              IF res.raised /\ res.error = "ValueError" THEN Good
+             ELSE IF ~res.raised /\ Len(spec.x) = 0 /\ Len(res.x) = 0 /\ Len(res.w) = 0 THEN Good
              ELSE Bad("undefined-density-not-refused",
                       IF res.raised THEN res.error ELSE ToString(<<Brief(res.x), Brief(res.w)>>))
         ELSE IF res.raised THEN Bad("raised", res.error)
